@@ -48,4 +48,27 @@ REGISTRY = {
         rule=('R-INV: one instance per (mutator, clause) over all exit states, plus per loop-head / call-site invariant obligation; R-LEN: 3 structural '
               'clauses on display(); R-COLOUR: one instance per insert site of an fg/bg value'),
     ),
+    'C03': dict(
+        modules=['rules_c03'],
+        engine='E0+E2+E4+E5+E6',
+        explanation=(
+            'Decided on the shipping cfg(not(test)) copy of the recogniser: D1 R-CONST - every C0/C1/final constant of control.rs and the classes '
+            'BASIC, ALLOWED_IN_CSI, OSC_TERMINATORS, SPECIAL equal the ECMA-48/VT100 values (read after rustc evaluated them); D2 R-DISPATCH - the decision '
+            'tables of escape_dispatch, basic_dispatch and csi_dispatch, extracted by abstract interpretation for every character class x parameter count '
+            '(0,1,2,3) x private flag, equal the documented table (method and where each argument comes from; unknown finals call nothing); D3 R-FSM - the '
+            'transition relation of the coroutine, extracted from the generalised abstract state at each of its suspension points for every character class '
+            'in both UTF-8 and 8-bit mode, is simulated by the reference automaton from the ground state on every care entry (next state, listener calls '
+            'expanded through the extracted dispatch tables, ground flag); the plain-text fast path of Parser::feed composed with it delivers each '
+            'non-special character to draw exactly once and sends every other character exactly once; D4 R-CAP - empty parameter = 0, saturating at 9999. '
+            'Don\'t-care (statement silent): ESC followed by a C0 control, ESC inside CSI, OSC codes R/P/p, ESC x inside an OSC payload, whether CAN/SUB is '
+            'also handed to draw. NOT decided: the concatenation of parameter digits into a number is the library parse (A-LIB).'),
+        level_text=('Automaton and decision-table extraction by abstract interpretation of the coroutine and dispatch functions over the finite set of '
+                    'character classes, compared entry by entry with a reference grammar written from the statement; covers every state x class x mode of '
+                    'the copy that ships (which no unit test executes), not sampled strings.'),
+        assumes='A-GEN, A-LIB, A-TOOL',
+        not_decided='Not decided: digit-string to number conversion (library parse); don\'t-care entries listed in the evidence explanation.',
+        technique='finite-domain abstract interpretation (E5 automaton / E6 decision-table extraction) + simulation check against a reference automaton',
+        rule=('R-CONST per constant; R-DISPATCH per (function, class, parameter count, private); R-FSM per (reference state, class, mode) care entry and '
+              'per (class, flag) of the feed wrapper; R-CAP per parameter push'),
+    ),
 }
